@@ -157,3 +157,12 @@ Definition val_ok (t : vty) (z : Z) : bool :=
   | TEnum n => (0 <=? z) && (z <? n)
   | TOpaque => true
   end.
+
+(* statements of save_config / save_config_hot (commands/config.rs) acting on the local copy
+   `new_config` and on the stored `config` files *)
+Inductive sstmt :=
+| SMarkHot (v : option Z)   (* new_config.is_hot = None / Some(true) *)
+| SWriteCold                (* DecryptBackend::new(repo.be, key).save_file_uncompressed(&new_config):
+                               repo.be routes config files to the cold part (the only part of a plain repository) *)
+| SWriteHot                 (* DecryptBackend::new(hot_be, key).save_file_uncompressed(&new_config) *)
+| SCallHot.                 (* save_config_hot(repo, new_config, key): passes a copy *)
